@@ -227,7 +227,7 @@ func cmdCheck(args []string) int {
 		have[r.Name] = true
 	}
 	for n := range inLedger {
-		if !have[n] && !strings.HasSuffix(n, "#none-retained") {
+		if !have[n] && !strings.HasSuffix(n, "#none-retained") && !strings.HasSuffix(n, "#all-sites") {
 			missing++
 		}
 	}
@@ -533,6 +533,25 @@ func checkShard(propV, tierV, shard string) *checkAcc {
 				acc.NewLedger = append(acc.NewLedger, borrowAgg)
 			}
 		}
+		// In the same way "no panic site of this harness can be reached" is one claim: a change
+		// that introduces a new panic site (a conversion, an index expression, a dereference that
+		// was not there) introduces an obligation with a new name. Recorded under one aggregate
+		// name when every panic-site obligation of the harness is discharged.
+		panicAgg := n + "/nopanic#all-sites"
+		{
+			allOK, any := true, false
+			for i, o := range res.Obls {
+				if isPanicKind(o.Kind) {
+					any = true
+					if res.Verdicts[i].Status != "unsat" {
+						allOK = false
+					}
+				}
+			}
+			if allOK && any {
+				acc.NewLedger = append(acc.NewLedger, panicAgg)
+			}
+		}
 		for i, o := range res.Obls {
 			v := res.Verdicts[i]
 			full := n + "/" + o.Name
@@ -585,7 +604,7 @@ func checkShard(propV, tierV, shard string) *checkAcc {
 				acc.Violations++
 				fmt.Printf("VIOLATION property=%s replay=%s\n", *prop, rr.Path)
 				fmt.Printf("  obligation %s (%s) at %s fails; counterexample reproduced on the real code\n", full, o.Desc, rep.Pos)
-			case inLedger[full] || (strings.HasPrefix(o.Kind, "borrow") && inLedger[borrowAgg]):
+			case inLedger[full] || (strings.HasPrefix(o.Kind, "borrow") && inLedger[borrowAgg]) || (isPanicKind(o.Kind) && inLedger[panicAgg]):
 				acc.Violations++
 				path := writeNoInputReplay(*prop, full, o, v, rr)
 				fmt.Printf("VIOLATION property=%s replay=%s no-failing-input-found\n", *prop, path)
@@ -598,6 +617,16 @@ func checkShard(propV, tierV, shard string) *checkAcc {
 		acc.HarnessTime[n] = time.Since(hstart).Seconds()
 	}
 	return acc
+}
+
+// isPanicKind: obligations that stand for a run-time panic site of the code under verification
+// (not of spec code: those are prefixed "spec-").
+func isPanicKind(k string) bool {
+	switch k {
+	case "index", "slice", "nilderef", "nilmap", "s2a", "div0", "shift", "makeslice", "panic", "typeassert", "unreachable":
+		return true
+	}
+	return false
 }
 
 func maxInt(a, b int) int {
